@@ -1,4 +1,4 @@
 \* spec mutation: guard rule "s2sFlag" weakened -> TLC must violate an Inv_C06_* invariant
-CONSTANTS NTypes = 2  Prices = {1, 2}  ZMods = {"same", "dear"}  MaxCands = 2  MinS2S = 2  Focus = "price"  Weak = "s2sFlag"  GenMod = 1  GenRes = 0
+CONSTANTS NTypes = 2  Prices = {1, 2}  ZMods = {"same", "dear"}  MaxCands = 2  MinS2S = 2  Focus = "price"  UnavCTs = {}  Weak = "s2sFlag"  GenMod = 1  GenRes = 0
 SPECIFICATION Spec
 INVARIANTS Inv_C06_CostDecreases Inv_C06_AtMostOneLaunch Inv_C06_SpotToSpotFeature Inv_C06_SpotToSpotAlternatives Inv_C06_SpotToSpotSettles Inv_C06_NotWorseThanKeeping Inv_C06_EmptyHarmless Inv_C06_PodsSchedulable
